@@ -72,6 +72,9 @@ func TestVerifRace(t *testing.T) {
 				w.WriteHeader(200)
 				return
 			}
+			if r.URL.Path == "/slow" {
+				time.Sleep(1250 * time.Millisecond) // longer than the handler timeout (1 s)
+			}
 			if int32((k*37+int64(id)*11)%100) < flaky.Load() {
 				if k%2 == 0 {
 					w.WriteHeader(500)
@@ -109,6 +112,7 @@ func TestVerifRace(t *testing.T) {
 	for i, b := range backends[:3] {
 		cfg.Backends = append(cfg.Backends, config.BackendConfig{Name: fmt.Sprintf("b%d", i), Address: b.URL, Weight: i + 1})
 	}
+	cfg.Server.Timeouts.Handler = 1
 	cfg.HealthChecks.Active = config.ActiveHealthCheckConfig{Enabled: true, Interval: 1, Timeout: 1, Path: "/health"}
 	cfg.HealthChecks.Passive = config.PassiveHealthCheckConfig{Enabled: true, UnhealthyThreshold: pick(40, 4), UnhealthyTimeout: 1}
 	cfg.RateLimit = config.RateLimitConfig{Enabled: true, MaxTokens: pick(400, 30), RefillRate: 1}
@@ -151,7 +155,11 @@ func TestVerifRace(t *testing.T) {
 			rng := rand.New(rand.NewSource(seed*100 + int64(g)))
 			for time.Now().Before(deadline.Add(150 * time.Millisecond)) { // overlaps Stop
 				body := strings.NewReader(strings.Repeat("x", rng.Intn(4300)))
-				r := httptest.NewRequest([]string{"GET", "POST", "HEAD"}[rng.Intn(3)], "/p", body)
+				path := "/p"
+				if g == 7 && rng.Intn(3) == 0 {
+					path = "/slow" // this exchange runs into server.timeouts.handler
+				}
+				r := httptest.NewRequest([]string{"GET", "POST", "HEAD"}[rng.Intn(3)], path, body)
 				r.RemoteAddr = fmt.Sprintf("198.51.100.%d:4000", rng.Intn(40))
 				if rng.Intn(2) == 0 {
 					r.Header.Set("X-Forwarded-For", fmt.Sprintf("203.0.113.%d", rng.Intn(30)))
